@@ -274,6 +274,8 @@ def _prompt_of(plat, mode=None, hostname="r1"):
     return d.prompt(mode or d.mode).decode().split("\n")[-1]
 
 
+PER_CALL = [0.12]        # probability of a per-call timeout_ops on operations that accept one (raised by the command / config families)
+
 # scenario families: which operations / device behaviours reach which twin function (used to aim the directed search)
 FAMILY_POOLS = {
     "priv": ["acquire_priv", "acquire_priv", "acquire_priv", "send_config", "send_configs", "send_command", "set_gdm", "send_interactive", "get_prompt"],
@@ -353,6 +355,8 @@ def _gen_op(rng, plat, hostname, name):
             kw["failed_when_contains"] = "BADWORD"
         if rng.random() < 0.1:
             kw["eager"] = True
+        if rng.random() < PER_CALL[0]:
+            kw["timeout_ops"] = rng.choice([500, 7, 0])          # per-call override, must govern EVERY command of the batch
         return [name, cmds, kw]
     if name in ("send_configs", "send_configs_from_file", "send_config"):
         cfgs = [rng.choice(CFGS) for _ in range(rng.randint(1, 4))]
@@ -369,6 +373,8 @@ def _gen_op(rng, plat, hostname, name):
             kw["privilege_level"] = "sess1"          # gen_scenario registers it first (most of the time)
         if rng.random() < 0.05:
             kw["privilege_level"] = "nonexistent"
+        if rng.random() < PER_CALL[0]:
+            kw["timeout_ops"] = rng.choice([500, 7, 0])
         if name == "send_config":
             return ["send_config", "\n".join(cfgs), kw]
         return [name, cfgs, kw]
@@ -398,16 +404,23 @@ def _gen_op(rng, plat, hostname, name):
             kw["privilege_level"] = "bogus_level"
         if rng.random() < 0.2:
             kw["failed_when_contains"] = ["answered"]
+        if rng.random() < PER_CALL[0]:
+            kw["timeout_ops"] = rng.choice([500, 7, 0])
         return ["send_interactive", ev, kw]
     if name == "send_and_read":
-        cmd = rng.choice(["show version", "show clock", "clear logging", "show run"])
+        cmd = rng.choice(["show version", "show clock", "clear logging", "show run", "show run", "show ansi"])
         m = rng.random()
-        if m < 0.35:
+        if m < 0.3:
             kw = {"read_duration": 1e-9}                                  # returns after exactly one read
-        elif m < 0.7:
-            kw = {"expected_outputs": [rng.choice(["UTC", "uptime", "[confirm]", "GigabitEthernet0/3"])], "read_duration": 3600}
+        elif m < 0.75:
+            # literal expected outputs: at the very start / early / in the middle / near the end of a long output / never printed
+            exp = rng.sample(["UTC", "uptime", "[confirm]", "GigabitEthernet0/3", "interface GigabitEthernet0/0", "GigabitEthernet0/20",
+                              "description link 39", "never printed", "Version 16"], rng.choice([1, 1, 2]))
+            kw = {"expected_outputs": exp, "read_duration": 3600}
         else:
             kw = {"read_duration": 3600}                                   # until the prompt
+        if rng.random() < PER_CALL[0]:
+            kw["timeout_ops"] = rng.choice([500, 7])
         return ["send_and_read", cmd, kw]
     # read_callback
     cbs = [{"contains_re": r"[#>%]\s*$", "send": "show clock", "name": "c1", "only_once": True} if final.startswith("^") else
@@ -421,6 +434,7 @@ def _gen_op(rng, plat, hostname, name):
 
 
 def gen_scenario(rng, plat=None, family=None):
+    PER_CALL[0] = 0.5 if family in ("command", "config", "interactive") else 0.12
     if family == "priv" and plat is None:
         plat = rng.choice(["network", "cisco_iosxe", "cisco_nxos", "arista_eos", "cisco_iosxe", "juniper_junos", "cisco_iosxr"])
     if family in ("config", "priv") and plat == "generic":
@@ -463,7 +477,23 @@ def gen_scenario(rng, plat=None, family=None):
         conn["textfsm_platform"] = "custom_fsm"
     scn = {"platform": plat, "dev": dev, "conn": conn}
     c = rng.random()
-    scn["cuts"] = "whole" if c < 0.4 else "one" if c < 0.55 else ["rng", rng.randrange(1 << 30), rng.choice([3, 7, 40])]
+    # read segmentation: whole / 1-byte / small PRNG chunks / bulk bursts (one read = tens to thousands of bytes) / an explicit first burst
+    if family == "send_and_read":
+        c = 0.55 + 0.45 * c
+    if c < 0.35:
+        scn["cuts"] = "whole"
+    elif c < 0.48:
+        scn["cuts"] = "one"
+    elif c < 0.78:
+        scn["cuts"] = ["rng", rng.randrange(1 << 30), rng.choice([3, 7, 40])]
+    elif c < 0.94:
+        lo, hi = rng.choice([(20, 120), (60, 400), (200, 1500), (900, 2600)])
+        scn["cuts"] = ["bulk", rng.randrange(1 << 30), lo, hi]
+    else:
+        scn["cuts"] = ["list", [rng.choice([1, 5, 30]) for _ in range(rng.randint(0, 6))] + [rng.choice([80, 300, 1200, 2000])] * rng.randint(1, 30)]
+    # the tail window the channel searches for prompts / expected outputs: default 1000, or small so that short streams go beyond it
+    if rng.random() < (0.6 if family == "send_and_read" else 0.15):
+        scn["_search_depth"] = rng.choice([40, 64, 200, 999])
     if rng.random() < (0.6 if family == "lifecycle" else 0.25):
         act = rng.choice(["eof", "eof", "exc:ScrapliConnectionError", "exc:OSError", "exc:ScrapliTimeout", "silent", "exc:ValueError"])
         if rng.random() < 0.65:
@@ -530,6 +560,22 @@ def enumerated_scenarios():
                         dev["enable_password"] = devpw
                     out.append({"platform": plat, "dev": dev, "conn": {"auth_secondary": sec}, "cuts": cuts,
                                 "ops": [["open"], ["send_command", "show clock", {}], ["acquire_priv", "configuration"], ["close"]]})
+        # per-call timeout_ops on a batch: it must be in effect for every command, the last one included
+        batch = [["send_commands", ["show clock", "show version", "show clock"], {"timeout_ops": 500}],
+                 ["send_commands_from_file", ["show clock", "show version"], {"timeout_ops": 7}]]
+        if plat != "generic":
+            batch += [["send_configs", ["interface lo0", "no shutdown"], {"timeout_ops": 500}], ["send_config", "interface lo0\ndescription x", {"timeout_ops": 7}]]
+        for op in batch:
+            out.append({"platform": plat, "dev": {"platform": DEVPLAT.get(plat, plat)}, "conn": {}, "cuts": "whole", "ops": [["open"], op, ["close"]]})
+        # send_and_read: a literal expected output early in a long output, reads that carry it together with more bytes than the search window
+        for depth in (64, None):
+            for cuts in (["list", [300] * 40], ["list", [1200] * 8], ["list", [2000] * 4], ["list", [1, 1, 1] + [700] * 10]):
+                for exp in (["GigabitEthernet0/3"], ["interface GigabitEthernet0/0"], ["description link 39"]):
+                    scn = {"platform": plat, "dev": {"platform": DEVPLAT.get(plat, plat)}, "conn": {}, "cuts": cuts,
+                           "ops": [["open"], ["send_and_read", "show run", {"expected_outputs": exp, "read_duration": 3600}], ["get_prompt"], ["close"]]}
+                    if depth:
+                        scn["_search_depth"] = depth
+                    out.append(scn)
         for op in ops:
             for cuts in ("whole", "one"):
                 dev = {"platform": DEVPLAT.get(plat, plat), "confirms": CONFIRMS, "fail_lines": ["bogus", "bad line"]}
@@ -619,7 +665,7 @@ def pair_fails(scn):
 
 
 def tags_of(scn, s):
-    t = [f"plat={scn['platform']}", f"cuts={scn['cuts'] if isinstance(scn.get('cuts'), str) else 'rng'}",
+    t = [f"plat={scn['platform']}", f"cuts={scn.get('cuts', 'whole') if isinstance(scn.get('cuts', 'whole'), str) else scn['cuts'][0]}", "depth=" + str(scn.get("_search_depth", "default")),
          "fault=" + (scn["faults"][0]["action"] if scn.get("faults") else "none"), "telnet" if scn.get("telnet") else "no-telnet"]
     for o in s["ops"]:
         t.append("op=" + o["op"])
